@@ -3,6 +3,7 @@
 
   tools/seedtest.py verify <seed_dir>            # in a scratch worktree: tests pass with the patch, demo fails with / passes without
   tools/seedtest.py run <seed_dir> [Cxx ...]     # apply to /repo, run the quick checks (default: the seed's property), revert
+  tools/seedtest.py srun <seed_dir> [Cxx ...]    # the same from a scratch worktree on PYTHONPATH (/repo untouched, parallel-safe)
   tools/seedtest.py all <seed_dir>               # run every check against it (which checks catch it)
 
 A seed dir holds patch.diff, demo.py and meta.json ({"property": "Cxx", ...}).
@@ -73,6 +74,39 @@ def run_checks(seed, props, tier="quick"):
     return res
 
 
+def run_checks_scratch(seed, props, tier="quick"):
+    """As run_checks, but without touching /repo: the patch is applied in a scratch worktree of /repo's HEAD that is put in
+    front of the import path (PYTHONPATH precedes the venv's .pth entry for /repo; the harness prints which valida it
+    imported and that is asserted here), evidence / replays go to a scratch directory (VERIF_OUT)."""
+    tag = f"{os.path.basename(seed)}_{os.getpid()}"
+    wt, out = f"/tmp/seedrun_{tag}", f"/tmp/seedout_{tag}"
+    sh(f"git -C /repo worktree add -q --detach {wt} HEAD")
+    res = {}
+    try:
+        a = sh(f"git -C {wt} apply {os.path.join(seed, 'patch.diff')}")
+        assert a.returncode == 0, a.stdout
+        w = sh(f"cd {ROOT} && PYTHONPATH={wt} .venv/bin/python -c 'import valida; print(valida.__file__)'")
+        assert w.stdout.strip().startswith(wt), w.stdout
+        for p in props:
+            t0 = time.time()
+            r = sh(f"cd {ROOT} && PYTHONPATH={wt} VERIF_OUT={out} ./vcheck {p} --tier {tier}")
+            lines = r.stdout.splitlines()
+            res[p] = {
+                "rc": r.returncode,
+                "violations": [l for l in lines if l.startswith("VIOLATION")][:6],
+                "n_violations": sum(1 for l in lines if l.startswith("VIOLATION")),
+                "harness_errors": [l[:300] for l in lines if l.startswith("HARNESS-ERROR")][:4],
+                "summary": lines[-1] if lines else "",
+                "wall_s": round(time.time() - t0, 1),
+                "how": "scratch worktree on PYTHONPATH",
+            }
+            print(os.path.basename(seed), p, res[p]["rc"], res[p]["n_violations"], res[p]["summary"][:160], flush=True)
+    finally:
+        sh(f"git -C /repo worktree remove --force {wt}")
+        sh(f"rm -rf {out}")
+    return res
+
+
 def main():
     mode, seed = sys.argv[1], os.path.abspath(sys.argv[2])
     meta = json.load(open(os.path.join(seed, "meta.json")))
@@ -83,7 +117,7 @@ def main():
     props = sys.argv[3:] or [meta["property"]]
     if mode == "all":
         props = ALL
-    res = run_checks(seed, props)
+    res = run_checks_scratch(seed, props) if mode == "srun" else run_checks(seed, props)
     path = os.path.join(seed, "result.json")
     old = json.load(open(path)) if os.path.exists(path) else {}
     old.update(res)
